@@ -238,6 +238,26 @@ def run(ctx: Ctx) -> None:
                 rep.ok("C05.R6", h.qname, desc6, h.loc(guards[0]))
             else:
                 rep.bad("C05.R6", h.qname, desc6, h.loc(bad[0]), bad[1], f"guard-order:{label}", what=f"the {label} branch iterates before checking the length")
+    for nf in outer.nested.values():
+        if nf is h or nf in len_checkers:
+            continue
+        rcalls = [c for c in nf.own_nodes() if isinstance(c, ast.Call) and isinstance(c.func, ast.Name) and c.func.id in rec_names]
+        rets = [r for r in nf.own_nodes() if isinstance(r, ast.Return) and r.value is not None]
+        if not rcalls or not rets or len(nf.params) < 2 or not any(rc in list(ast.walk(r.value)) for r in rets for rc in rcalls):
+            continue
+        n3 += 1
+        used = set()
+        for r in rets:
+            for c in ast.walk(r.value):
+                if isinstance(c, ast.Call) and isinstance(c.func, ast.Name) and c.func.id in rec_names and c.args:
+                    used |= {x.id for x in ast.walk(c.args[0]) if isinstance(x, ast.Name)}
+        missing = [p_ for p_ in nf.params if p_ not in used]
+        desc = f"helper {nf.name}: every component it is given is hashed into what it returns"
+        if missing:
+            rep.bad("C05.R3", nf.qname, desc, nf.loc(), [f"parameter(s) {missing} never reach the recursive hasher in the returned value: mappings that differ only there collide ({{a: 1}} / {{b: 1}})"],
+                    f"helper:{nf.name}", what=f"{nf.name} drops {missing} from the pre-image")
+        else:
+            rep.ok("C05.R3", nf.qname, desc, nf.loc())
     rep.floor("C05.R3", n3, 4)
 
     # ---- R4 boundary pre-images ------------------------------------------------------------------
